@@ -33,6 +33,11 @@ class _UnknownTruth(Exception):
     pass
 
 
+class _Return(Exception):
+    def __init__(self, value):
+        self.value = value
+
+
 class _Break(Exception):
     pass
 
@@ -330,6 +335,9 @@ class Evaluator:
                         continue
             except _Break:
                 pass
+        elif isinstance(st, ast.Return):
+            if getattr(self, '_call_depth', 0) > 0:
+                raise _Return(ev(st.value) if st.value is not None else None)
         elif isinstance(st, ast.Break):
             raise _Break()
         elif isinstance(st, ast.Continue):
@@ -658,7 +666,9 @@ class Evaluator:
             return fn(self)
         if isinstance(fn, ClassTok):
             return self.construct(fn, args, kwargs)
-        if isinstance(fn, (FuncTok, LambdaTok)):
+        if isinstance(fn, FuncTok):
+            return self.call_repo_function(fn, args, kwargs)
+        if isinstance(fn, LambdaTok):
             return Unknown(f'call of repo function {fn.key}')
         if isinstance(fn, ExtTok):
             k = fn.key
@@ -674,6 +684,50 @@ class Evaluator:
                 r = list(r)
             return r
         return Unknown(f'call of {fn!r}')
+
+    def call_repo_function(self, fn: 'FuncTok', args, kwargs):
+        """Import-time table construction sometimes goes through a small module-level helper (`for c in CLASSES: T[c] = _inherited(c)`).
+        Such a call is folded like the loops around it: parameters are bound in a fresh scope over the defining module's environment and
+        the body is run by the same statement evaluator; anything it cannot decide makes the result Unknown.  Nesting is bounded."""
+        node = fn.node
+        depth = getattr(self, '_call_depth', 0)
+        if not isinstance(node, ast.FunctionDef) or node.decorator_list or '.' in fn.qualname or depth >= 24:
+            return Unknown(f'call of repo function {fn.key}')
+        a = node.args
+        if a.vararg or a.kwarg or any(isinstance(x, (ast.Yield, ast.YieldFrom, ast.Global, ast.Nonlocal)) for x in ast.walk(node)):
+            return Unknown(f'call of repo function {fn.key}')
+        params = list(a.posonlyargs) + list(a.args)
+        if len(args) > len(params):
+            return Unknown(f'call of repo function {fn.key}')
+        local = {}
+        menv = self.env(fn.module)
+        for p, v in zip(params, args):
+            local[p.arg] = v
+        names = {p.arg for p in params + list(a.kwonlyargs)}
+        for k, v in kwargs.items():
+            if k not in names or k in local:
+                return Unknown(f'call of repo function {fn.key}')
+            local[k] = v
+        defaults = dict(zip([p.arg for p in params][len(params) - len(a.defaults):], a.defaults))
+        defaults.update({p.arg: d for p, d in zip(a.kwonlyargs, a.kw_defaults) if d is not None})
+        for p in params + list(a.kwonlyargs):
+            if p.arg not in local:
+                if p.arg not in defaults:
+                    return Unknown(f'call of repo function {fn.key}')
+                local[p.arg] = self._eval(defaults[p.arg], menv, fn.module)
+        scope = _ChainEnv(local, menv)
+        self._call_depth = depth + 1
+        try:
+            self.exec_body(node.body, scope, fn.module, None)
+            return None
+        except _Return as r:
+            return r.value
+        except (_Break, _Continue, _UnknownTruth, AnalysisError, RecursionError):
+            return Unknown(f'call of repo function {fn.key}')
+        except Exception:      # noqa: anything the folding cannot handle is simply not known
+            return Unknown(f'call of repo function {fn.key}')
+        finally:
+            self._call_depth = depth
 
     def construct(self, cls: ClassTok, args, kwargs):
         if any(b.name == 'NamedTuple' for b in cls.mro()[1:]) or '__fields__' in cls.ns:
